@@ -89,6 +89,12 @@ type config struct {
 	Protocols  []string // client's list (unique tokens)
 	Accept     []string // server accepts these
 	NoProtoSel bool     // server has no Protocol selector
+	// ProtoCustom: the server also sets ProtocolCustom (documented to be used instead of Protocol); the
+	// hook picks the first token of a header value that is in CustomAccept.
+	ProtoCustom  bool
+	CustomAccept []string
+	// ExtraProto: a second Sec-WebSocket-Protocol line written by the dialer's Header writer.
+	ExtraProto []string
 	Offers     []offer
 	ExtMode    string   // none | selector | wsflate | custom | custom-error
 	ExtAccept  []string // names the selector/custom negotiator accepts
@@ -156,6 +162,13 @@ func drawConfig(t *rapid.T) config {
 	c.Protocols = rapid.SliceOfNDistinct(rapid.SampledFrom(tokenPool), 0, 4, rapid.ID[string]).Draw(t, "protocols")
 	c.Accept = rapid.SliceOfNDistinct(rapid.SampledFrom(tokenPool), 0, 4, rapid.ID[string]).Draw(t, "accept")
 	c.NoProtoSel = rapid.IntRange(0, 4).Draw(t, "noprotosel") == 0
+	if rapid.IntRange(0, 3).Draw(t, "protocustom") == 0 {
+		c.ProtoCustom = true
+		c.CustomAccept = rapid.SliceOfNDistinct(rapid.SampledFrom(tokenPool), 0, 4, rapid.ID[string]).Draw(t, "customaccept")
+	}
+	if rapid.IntRange(0, 3).Draw(t, "extraproto") == 0 {
+		c.ExtraProto = rapid.SliceOfNDistinct(rapid.SampledFrom(tokenPool), 1, 3, rapid.ID[string]).Draw(t, "extraprotocols")
+	}
 	for i := rapid.IntRange(0, 3).Draw(t, "noffers"); i > 0; i-- {
 		c.Offers = append(c.Offers, drawOffer(t))
 	}
@@ -174,6 +187,9 @@ func drawConfig(t *rapid.T) config {
 		ClientMaxWindowBits:     bits("f.cmwb"),
 	}
 	c.CliHeader = drawHeaders(t, "Cli", true)
+	if len(c.ExtraProto) > 0 {
+		c.CliHeader = append(c.CliHeader, [2]string{"Sec-WebSocket-Protocol", strings.Join(c.ExtraProto, ", ")})
+	}
 	c.SrvHeader = drawHeaders(t, "Srv", true)
 	c.CRB = rapid.SampledFrom(bufSizes).Draw(t, "crb")
 	c.CWB = rapid.SampledFrom(bufSizes).Draw(t, "cwb")
@@ -224,6 +240,16 @@ func (c config) upgrader() ws.Upgrader {
 	if !c.NoProtoSel {
 		u.Protocol = func(p []byte) bool { return contains(c.Accept, string(p)) }
 	}
+	if c.ProtoCustom {
+		u.ProtocolCustom = func(v []byte) (string, bool) {
+			for _, tok := range strings.Split(string(v), ",") {
+				if tok = strings.TrimSpace(tok); contains(c.CustomAccept, tok) {
+					return strings.Clone(tok), true
+				}
+			}
+			return "", true
+		}
+	}
 	if len(c.SrvHeader) > 0 {
 		u.Header = hdrWriter(c.SrvHeader)
 	}
@@ -254,6 +280,27 @@ func (c config) upgrader() ws.Upgrader {
 		}
 	}
 	return u
+}
+
+// selection is the subprotocol the documented rules make the server pick: the
+// protocol lines are examined in order until one yields a protocol; within a
+// line the first token the selector (ProtocolCustom if set, else Protocol) accepts.
+func (c config) selection() string {
+	accept := c.Accept
+	switch {
+	case c.ProtoCustom:
+		accept = c.CustomAccept
+	case c.NoProtoSel:
+		return ""
+	}
+	for _, line := range [][]string{c.Protocols, c.ExtraProto} {
+		for _, tok := range line {
+			if contains(accept, tok) {
+				return tok
+			}
+		}
+	}
+	return ""
 }
 
 // ---------------------------------------------------------------------------
@@ -342,6 +389,19 @@ func TestPeersAgree(t *testing.T) {
 		}
 		if r.offersChanged != "" {
 			t.Fatalf("%s\nresponse:\n%s", r.offersChanged, r.resp)
+		}
+		if sel := c.selection(); sel != "" && !contains(c.Protocols, sel) {
+			// the caller offered (through its own header writer) a protocol its Dialer.Protocols does not list and
+			// the server picked it: the dialer rightly refuses what the server rightly selected — not a disagreement
+			// of the library with itself
+			hx.Class("pair/unlisted-protocol-selected")
+			if r.srvErr == nil && !r.srvWriteFailed && r.cliErr == nil {
+				t.Fatalf("the server selected %q, which Dialer.Protocols %v does not list, and the dialer accepted it\nrequest:\n%s\nresponse:\n%s", sel, c.Protocols, r.req, r.resp)
+			}
+			return
+		}
+		if c.ProtoCustom || len(c.ExtraProto) > 0 {
+			hx.Class(fmt.Sprintf("pair/protocustom=%v/extraline=%v/selected=%v", c.ProtoCustom, len(c.ExtraProto) > 0, c.selection() != ""))
 		}
 		if (r.cliErr == nil) != (r.srvErr == nil) {
 			t.Fatalf("peers disagree on the outcome: client err=%v, server err=%v\nrequest:\n%s\nresponse:\n%s", r.cliErr, r.srvErr, r.req, r.resp)
